@@ -88,6 +88,7 @@ def make_model(kind):
     m.add_parameters({"c": 1.0, "k1": 1.5, "k2": 0.75})
     if kind == "cons":
         # closed pair x <-> y: the total is conserved, so every result depends on the row's start values
+        m.add_readout("ro", f_ratio, args=["x", "y"])
         m.add_reaction("v1", f_ma, args=["x", "k1"], stoichiometry={"x": -1, "y": 1})
         m.add_reaction("v2", f_ma, args=["y", "k2"], stoichiometry={"y": -1, "x": 1})
         return m
@@ -97,6 +98,9 @@ def make_model(kind):
     else:
         m.add_reaction("v0", f_const, args=["c"], stoichiometry={"x": 1})
     m.add_reaction("v1", f_ma, args=["x", "k1"], stoichiometry={"x": -1, "y": 1})
+    if kind != "ma":
+        # a readout: part of every row's variables view, also of a failed row's placeholder
+        m.add_readout("ro", f_ratio, args=["x", "y"])
     if kind in ("derived", "ia"):
         m.add_derived("dm", f_sat, args=["k1"])
         m.add_derived("ratio", f_ratio, args=["x", "y"])
